@@ -54,6 +54,9 @@ CHECKS = {
                   "covers": ["done", "publish", "fetch", "shrink", "second-term", "a-leads-again", "late-request"],
                   "targets": ["partition).becomeLeader", "partition).becomeFollower", "partition).stopLeading", "partition).truncateUncommitted",
                               "partition).handleLeaderOffsetRequest", "partition).commitLoop", "replicator).start", "partition).startReplicating"]},
+                 {"name": "VerifC02ReelectedVariants", "tiers": ["thorough"], "replay": "interpreted", "max-paths": 3000000, "thorough": {"s1": 3, "s2": 2, "s3": 3},
+                  "covers": ["done", "third-replica-leads", "second-leader-deposed-alive", "a-leads-again", "late-request"],
+                  "targets": ["partition).becomeLeader", "partition).becomeFollower", "partition).truncateUncommitted", "partition).commitLoop"]},
                  {"name": "VerifC02Failovers", "replay": "interpreted", "max-paths": 3000000, "quick": {"m1": 2, "m2": 1, "m3": 1, "stalein": 5}, "thorough": {"m1": 2, "m2": 2, "m3": 2, "stalein": 0},
                   "covers": ["done", "second-term", "third-term", "stale-response"],
                   "targets": ["partition).truncateUncommitted", "partition).handleLeaderOffsetRequest", "partition).sendLeaderOffsetRequest", "commitLog).NewLeaderEpoch"]},
